@@ -262,6 +262,8 @@ class Scenario:
             trans = len(w.net.trace)
         verdict = None
         if problems:
+            # the open finding's class only names the verdict when nothing else is wrong with this execution
+            problems.sort(key=lambda s: s.startswith("goodbye-dropped-as-duplicate"))
             verdict = {"what": f"C07 {self.name} {self.variant} deviations "
                                f"{[(i, l) for i, (n, l, c) in enumerate(ch.log) if c]}: {problems[0][:700]}",
                        "replay": {"scenario_name": self.name, "variant": self.variant, "problems": problems[:4]},
